@@ -273,6 +273,7 @@ def compile_jobs(pid, chk, v):
             srcs.append(s)
     jobs = []
     objs = []
+    hobjs = []
     for s in srcs:
         o = os.path.join(d, "obj", s.replace("/", "_") + ".o")
         jobs.append(base + v.get("lib_flags", []) + ["-c", os.path.join(REPO, s), "-o", o])
@@ -282,7 +283,10 @@ def compile_jobs(pid, chk, v):
         o = os.path.join(d, "obj", "h_" + os.path.basename(h) + ".o")
         jobs.append(base + v.get("harness_flags", []) + chk.get("harness_flags", []) +
                     ["-c", os.path.join(HERE, "harness", h), "-o", o])
-        objs.append(o)
+        hobjs.append(o)
+    # link order = order of dynamic initialisation of the translation units: the library's first (as with a shared
+    # library), or - harness_first - the application's first (static link with the application's objects in front)
+    objs = hobjs + objs if v.get("harness_first") else objs + hobjs
     link = [fl["cxx"]] + fl["flags"] + ["-pthread"] + objs + ["-o", os.path.join(d, "harness")] + \
         be["libs"] + v.get("libs", []) + chk.get("libs", [])
     return jobs, link
